@@ -238,6 +238,91 @@ pub fn run_subsets(tier: &str, seed: u64, out: &mut Out) {
     }
 }
 
+/// sets the value at `path` inside marker-encoded data (objects by key, arrays by index)
+fn set_path(d: &mut J, path: &[&str], nv: J) {
+    if path.is_empty() {
+        *d = nv;
+        return;
+    }
+    if let Some(o) = d.get_mut("$o") {
+        let m = o.as_object_mut().unwrap();
+        if !m.contains_key(path[0]) {
+            m.insert(path[0].to_string(), J::Null);
+        }
+        set_path(m.get_mut(path[0]).unwrap(), &path[1..], nv);
+    } else if let Some(a) = d.get_mut("$a") {
+        let i: usize = path[0].parse().unwrap();
+        set_path(&mut a.as_array_mut().unwrap()[i], &path[1..], nv);
+    }
+}
+
+/// expression shapes x binding contexts (C06 / C07): every shape that needs generation-time
+/// temporaries or a non-l-value list, placed in every place a binding can sit, with a history that
+/// changes each field on its own under an exact update-path tree
+pub fn run_matrix(tier: &str, seed: u64, out: &mut Out) {
+    let _ = (tier, seed);
+    let shapes: Vec<&str> = vec![
+        "a ? b : c", "a ? b + 1 : c", "a ? 'tab ' + b : ''", "d ?? b", "n ?? b", "l[d]", "o[s]", "o[s].x", "a ? l[d] : c", "(a ? o : l).a",
+        "a && b || c", "[a, b][d]", "{x: a, y: b}.x", "a + b", "o.b.x", "'p ' + (a ? b : '')", "l || []", "[a, b]", "o.list || []",
+        "a ? l : [b]", "l[d].a", "[l[d], o[s]]", "{k: l[d]}", "f(a ? b : c)", "!(a ? b : c)", "l.length", "s.length",
+    ];
+    let configs: Vec<J> = vec![
+        json!({"$o": {"a": 1, "b": "B", "c": "C", "d": 0, "n": null, "s": "a", "f": {"$fn": "ff"},
+            "o": {"$o": {"a": {"$o": {"x": "oa"}}, "x": {"$o": {"x": "ox"}}, "b": {"$o": {"x": "deep"}}, "list": {"$a": [1, 2]}}},
+            "l": {"$a": [10, 20, 30]}}}),
+        json!({"$o": {"a": 0, "b": 2, "c": 3, "d": 1, "n": {"$u": 1}, "s": "x", "f": {"$fn": "ff"},
+            "o": {"$o": {"a": 5, "x": 6, "b": {"$o": {"x": 7}}, "list": {"$a": [{"$o": {"a": 1, "x": "p"}}]}}},
+            "l": {"$a": [{"$o": {"a": 1, "x": "p"}}, {"$o": {"a": 2, "x": "q"}}]}}}),
+    ];
+    // (path, new value) per step; list steps differ per config
+    let common: Vec<(Vec<&str>, J)> = vec![
+        (vec!["a"], json!("")), (vec!["a"], json!(7)), (vec!["b"], json!("B2")), (vec!["c"], json!("C2")),
+        (vec!["d"], json!(2)), (vec!["d"], json!(0)), (vec!["n"], json!("N")), (vec!["n"], json!(null)),
+        (vec!["s"], json!("b")), (vec!["o", "b", "x"], json!("deep2")), (vec!["o", "a"], json!({"$o": {"x": "oa2"}})),
+        (vec!["o", "list"], json!({"$a": [3, 4, 5]})), (vec!["o", "list"], json!({"$u": 1})),
+    ];
+    let list_steps: Vec<Vec<(Vec<&str>, J)>> = vec![
+        vec![(vec!["l", "0"], json!(11)), (vec!["l"], json!({"$a": [11, 20, 30, 40]})), (vec!["l"], json!({"$a": [11]})), (vec!["l"], json!({"$u": 1})), (vec!["l"], json!({"$a": [1, 2]}))],
+        vec![(vec!["l", "0", "a"], json!(5)), (vec!["l", "1", "x"], json!("Q")), (vec!["l"], json!({"$a": [{"$o": {"a": 9, "x": "r"}}]})),
+             (vec!["l"], json!({"$a": [{"$o": {"a": 9, "x": "r"}}, {"$o": {"a": 8, "x": "s"}}, {"$o": {"a": 7, "x": "t"}}]})), (vec!["l", "2", "a"], json!(70))],
+    ];
+    let mut id = 0;
+    for shape in shapes.iter() {
+        let e = shape;
+        let attrs_only = format!(
+            "<view id=\"{{{{{e}}}}}\" class=\"{{{{{e}}}}}\" style=\"{{{{{e}}}}}\" hidden=\"{{{{{e}}}}}\" p=\"{{{{{e}}}}}\" q-r=\"x{{{{{e}}}}}y\" data-k=\"{{{{{e}}}}}\" data:j=\"{{{{{e}}}}}\" mark:m=\"{{{{{e}}}}}\" bind:tap=\"{{{{{e}}}}}\" model:v=\"{{{{{e}}}}}\" change:p=\"{{{{{e}}}}}\">{{{{{e}}}}}|x{{{{{e}}}}}y</view><c class=\"k {{{{{e}}}}}\" style=\"a:{{{{{e}}}}}\"><view slot=\"{{{{{e}}}}}\">{{{{ {e} }}}}</view></c>",
+            e = e);
+        let full = format!(
+            "{attrs}<block wx:if=\"{{{{{e}}}}}\">T{{{{b}}}}</block><block wx:else>F{{{{c}}}}</block><block wx:for=\"{{{{{e}}}}}\">{{{{index}}}}={{{{item}}}}/{{{{item.a}}}}/{{{{item.x}}}};</block><v wx:for=\"{{{{{e}}}}}\" wx:for-item=\"it\" wx:key=\"a\" k=\"{{{{it.a}}}}\">{{{{it.x}}}}</v><template name=\"t\">[{{{{x}}}}|{{{{x.a}}}}|{{{{x[0]}}}}]</template><template is=\"t\" data=\"{{{{x: {e}}}}}\"/><slot name=\"{{{{{e}}}}}\" v=\"{{{{{e}}}}}\"/><c><view slot:sv wx:if=\"{{{{{e}}}}}\">{{{{ {e} }}}}{{{{sv}}}}</view></c>",
+            attrs = attrs_only, e = e);
+        for (vi, src) in [attrs_only.clone(), full].iter().enumerate() {
+            let mut tg = TmplGroup::new();
+            let diags = tg.add_tmpl("p", src);
+            let max_level = diags.iter().map(|d| d.kind.level() as u8).max().unwrap_or(0);
+            let bundle = tg.get_tmpl_gen_object_groups().unwrap_or_default();
+            for (ci, d0) in configs.iter().enumerate() {
+                let mut datas = vec![d0.clone()];
+                let mut trees = vec![];
+                let mut cur = d0.clone();
+                for (path, nv) in common.iter().chain(list_steps[ci].iter()) {
+                    set_path(&mut cur, path, nv.clone());
+                    datas.push(cur.clone());
+                    let p: Vec<String> = path.iter().map(|x| x.to_string()).collect();
+                    trees.push(tree_of(&[p], 0));
+                }
+                let job = json!({
+                    "kind": "behave", "id": format!("m{}", id), "src": src, "bundle": bundle, "path": "p", "max_level": max_level,
+                    "datas": datas, "trees": trees,
+                    "features": [format!("matrix-shape:{}", shape), if vi == 0 { "matrix-attrs-only" } else { "matrix-all-contexts" }, format!("matrix-config-{}", ci)],
+                    "slotValues": {"$o": {"sv": "SV"}},
+                });
+                out.raw(&job.to_string());
+                id += 1;
+            }
+        }
+    }
+}
+
 // ---------------------------------------------------------------- C04: render specification jobs
 
 fn val_sexp(v: &J) -> String {
